@@ -45,7 +45,7 @@ ASSUMPTIONS = [
 ]
 REAL_STUB = {"real": ["onnx_ir.serde (to_proto / from_proto)", "onnx_ir core"], "stub": [], "harness_extension_points": ["LazyTensor thunks"]}
 
-EDITS = ["drop_type", "drop_shape", "empty_optional_output", "none_input", "rename_value", "rename_node", "add_node", "remove_unused", "doc", "metadata", "attr_set", "attr_del", "retensor", "symbolic_shape", "symbolic_shape", "denotation", "denotation", "seq_type", "shadow_name", "shadow_name", "share_tensor", "share_tensor", "tensor_meta", "tensor_meta", "share_tensor_attr", "lazy_transient"]
+EDITS = ["drop_type", "drop_shape", "empty_optional_output", "none_input", "rename_value", "rename_node", "add_node", "remove_unused", "doc", "metadata", "attr_set", "attr_del", "retensor", "symbolic_shape", "symbolic_shape", "denotation", "denotation", "seq_type", "shadow_name", "shadow_name", "share_tensor", "share_tensor", "tensor_meta", "tensor_meta", "share_tensor_attr", "lazy_transient", "io_roles", "io_roles"]
 
 
 def gen_case(run_seed: int, tier: str, index: int = 0) -> dict:
@@ -249,6 +249,42 @@ def apply_edit(model, edit, fresh) -> str:
             t = iv.const_value
             out0.shape = ir.Shape(list(t.shape.numpy())) if out0.shape is not None else None
             out0.type = ir.TensorType(t.dtype) if out0.type is not None else None
+    elif kind == "io_roles":
+        # values in several roles of the main graph: an initializer / input that is also an output, an output dropped
+        # again, an initializer turned into the output of a Constant node (same Value object, consumers stay connected)
+        g = model.graph
+        which = b % 4
+        if which == 0 and g.initializers:
+            v_ = list(g.initializers.values())[a % len(g.initializers)]
+            if not any(v_ is o for o in g.outputs):
+                g.outputs.append(v_)
+        elif which == 1 and g.inputs:
+            v_ = g.inputs[a % len(g.inputs)]
+            if not any(v_ is o for o in g.outputs):
+                g.outputs.append(v_)
+        elif which == 2 and len(g.outputs) > 1:
+            del g.outputs[a % len(g.outputs)]
+        elif which == 3 and g.initializers:
+            cands = [x for x in g.initializers.values() if not x.is_graph_input() and x.const_value is not None and not isinstance(x.const_value, (ir.LazyTensor, ir.ExternalTensor))]
+            if not cands:
+                return "noop"
+            v_ = cands[a % len(cands)]
+            was_output = [i_ for i_, o in enumerate(g.outputs) if o is v_]
+            for i_ in reversed(was_output):
+                del g.outputs[i_]
+            t_ = v_.const_value
+            g.initializers.pop(v_.name)
+            v_.const_value = None
+            cn = ir.Node("", "Constant", [], [ir.AttrTensor("value", t_)], outputs=[v_], name=fresh("n"))
+            first = g[0] if len(g) else None
+            if first is not None:
+                g.insert_before(first, cn)
+            else:
+                g.append(cn)
+            if was_output and (b >> 3) % 2:
+                g.outputs.append(v_)
+        else:
+            return "noop"
     elif kind == "lazy_transient":
         # an initializer (or a Constant's tensor) becomes a lazily loaded tensor whose loader fails the first time(s)
         inits = [x for g in model.graphs() for x in g.initializers.values() if x.const_value is not None and not isinstance(x.const_value, ir.LazyTensor)]
